@@ -307,6 +307,31 @@ pub fn run(ctx: &mut Ctx) {
         ctx.class("many_calls_one_process");
     }
 
+    // --- opposite recipient keys d and n - d (P and -P share x and z) used alternately on one thread
+    {
+        let no = ctx.n(4, 64);
+        let mut po = ctx.prng("opposite_keys");
+        for i in 0..no {
+            let sub = po.next();
+            if !ctx.mine(i) {
+                continue;
+            }
+            let mut p = Prng::new(sub, "o");
+            let d = rand_scalar(&mut p, &(&c.n - 2u32));
+            let dn = &c.n - &d;
+            if d == BigUint::from(0u32) || dn >= &c.n - 1u32 {
+                continue;
+            }
+            for step in 0..4u64 {
+                let k = rand_scalar(&mut p, &c.n);
+                // same length and layout within a history: both key objects then have the same provenance (same stored Z)
+                let msg = p.bytes(12 + (i % 3) as usize);
+                ctx.class("opposite_recipient_keys_consecutive");
+                enc_case(ctx, if step % 2 == 0 { &d } else { &dn }, &msg, Some(&k), LAYOUTS[(i % 4) as usize], "opposite_recipient_keys_consecutive");
+            }
+        }
+    }
+
     // --- every message length 1..=300, rotating layouts; fixed and free k
     let reps = ctx.n(1, 30);
     let mut prng = ctx.prng("sweep");
@@ -376,6 +401,7 @@ pub fn run(ctx: &mut Ctx) {
         let len = match i % 12 {
             0 => 65536,
             6 => (1 << 21) + 100,
+            9 => (1 << 24) + 1,
             3 => 8161,
             _ => p.range(301, 20000),
         };
